@@ -6,6 +6,7 @@ payload : ops separated by ';'
 response: one token per op joined by ';' then ';file:<hex|none>'
    ok | err:<kind> | val:<hex> | keys:<sorted hex list, comma separated>
 `cut n` is the crash: only the first n bytes of the file survive and every handle object is gone.
+`cutkeep n h` is the crash of the process that owns handle h only: the other handle objects survive.
 -/
 import Molli.Util.Basic
 import Molli.Model.Ukv
@@ -16,6 +17,7 @@ open Molli.Util Molli.Model.Ukv Molli.Model.Backend
 inductive XOp
   | op (o : Op)
   | cut (n : Nat)
+  | cutKeep (n h : Nat)
   | bop (o : BOp)
   | probe
 
@@ -39,6 +41,7 @@ def parseOp (s : String) : Option XOp :=
   | ["get", h, k] => do pure (.op (.get (← h.toNat?) (← bytesOfHex? k)))
   | ["keys", h] => do pure (.op (.keys (← h.toNat?)))
   | ["cut", n] => do pure (.cut (← n.toNat?))
+  | ["cutkeep", n, h] => do pure (.cutKeep (← n.toNat?) (← h.toNat?))
   | ["cnew", c, bs, ro, ow, cm] => do
       pure (.bop (.cnew (← c.toNat?) (← bs.toInt?) (ro == "1") (ow == "1") (← bytesOfHex? cm)))
   | ["begin", c, m] => do pure (.bop (.begin (← c.toNat?) (m == "w")))
@@ -84,7 +87,8 @@ def showBOut : BOut → String
 
 def xstep (bw : BWorld) : XOp → BWorld × String
   | .op o => let (w', out) := step bw.w o; ({ bw with w := w' }, showOut out)
-  | .cut n => ({ w := { file := bw.w.file.map (·.take n), hs := fun _ => none }, bs := fun _ => none }, "ok")
+  | .cut n => ({ w := crash bw.w n (fun _ => true), bs := fun _ => none }, "ok")
+  | .cutKeep n h => ({ bw with w := crash bw.w n (· == h) }, "ok")
   | .bop o => let (bw', out) := bstep bw o; (bw', showBOut out)
   | .probe =>
     -- what a second process sees: the complete records of the file
